@@ -266,7 +266,7 @@ Variables kvs1 kvs2 : list (atom * value).
 Notation D := (D hatom udiff ops c conv bidir always T1 T2).
 Notation DC := (DC hatom udiff ops c conv bidir always T1 T2 q kvs2).
 Notation Good := (Good hatom udiff ops c conv bidir always).
-Notation GoodD := (GoodD conv bidir).
+Notation GoodD := (GoodD conv bidir always).
 Notation irun := (irun conv bidir).
 Notation run_passes := (run_passes conv bidir).
 Notation finish := (finish conv bidir).
@@ -418,7 +418,7 @@ Proof.
   assert (Sub : forall kv, In kv kvs1 -> In (fst kv) (map fst kvs1)) by (intros kv H; apply in_map; exact H).
   assert (ND1 : NoDup (map fst kvs1)) by (apply nodup_NoDup; exact N1).
   assert (HGD : forall k v1 v2, In (k, v1) kvs1 -> assoc k kvs2 = Some v2 ->
-            DeltaGood.GoodD conv bidir (D v1 v2 (snoc q (PKey k))) (S (length q)) v1 v2).
+            DeltaGood.GoodD conv bidir always (D v1 v2 (snoc q (PKey k))) (S (length q)) v1 v2).
   { intros k v1 v2 Hin A. rewrite <- (snoc_length q (PKey k)). apply (HG k v1 v2 Hin A).
     - unfold snoc. rewrite resolve_snoc, R1. cbn [key_atom get_item]. eapply assoc_nodup; [exact N1|exact Hin|apply py_eq_refl].
     - unfold snoc. rewrite resolve_snoc, R2. cbn [key_atom get_item]. exact A. }
